@@ -86,8 +86,10 @@ type Sim struct {
 	lastDigests map[string]string
 }
 
-func NewSim(prof *Profile) *Sim {
-	n := NewWorld()
+func NewSim(prof *Profile) *Sim { return newSimWith(prof, nil) }
+
+func newSimWith(prof *Profile, onBoot func(n *Node)) *Sim {
+	n := NewWorld(onBoot)
 	s := &Sim{N: n, Env: n.Env, Prof: prof, byOrigin: map[int]*Pkt{}, Model: NewOrbModel(), EnvM: NewEnvModel(), Stats: newRunStats()}
 	s.Ledger = n.LedgerAt(n.Ctx())
 	return s
